@@ -352,7 +352,11 @@ class SeqRunner:
                 from . import VERIF
                 p = subprocess.run([sys.executable, '-m', 'harness.persist_worker', self.dir, str(self.clock.tick), _j.dumps(inner),
                                     str(self.cfg.get('min_file_size', 2 ** 15))],
-                                   cwd=VERIF, stdout=subprocess.PIPE, stderr=subprocess.PIPE, text=True, timeout=120)
+                                   cwd=VERIF, stdout=subprocess.PIPE, stderr=subprocess.PIPE, text=True, timeout=120,
+                                   # the other process does not share this one's locale: what is stored as UTF-8 must not be
+                                   # decoded with the reader's locale encoding
+                                   env=dict(os.environ, LC_ALL='C', LANG='C', PYTHONUTF8='0', PYTHONCOERCECLOCALE='0',
+                                            PYTHONIOENCODING='utf-8'))
                 if p.returncode != 0:
                     raise MachineryError('persist worker failed: ' + p.stderr[-800:])
                 return _j.loads(p.stdout.strip().splitlines()[-1])
